@@ -28,6 +28,7 @@ func newSim(cfg Cfg, seed int64) *Sim {
 // boot must be called inside the bubble.
 func (s *Sim) boot() {
 	s.epoch = time.Now()
+	xidMap = s.cfg.XidMap
 	s.conn = newFakeConn(s)
 	for i := range s.cfg.Xid {
 		ctx, cancel := context.WithCancel(context.Background())
@@ -544,6 +545,7 @@ func TestSim(t *testing.T) {
 		cfg.Dest = int((uint64(myid)*2654435761)>>5) % 4     // the properties hold for every destination
 		cfg.BigReq = []int{0, 0, 0, 700, 1300, 1600, 4000, 0}[(uint64(myid)*2654435761)>>25%8] // ... and whatever the size of the request
 		cfg.Raw = cfg.V4 && (uint64(myid)*2654435761)>>21%3 == 0 // ... and on the raw-socket layer as well as on a UDP socket
+		cfg.XidMap = []int{0, 0, 1, 2}[(uint64(myid)*2654435761)>>15%4] // ... and whatever the transaction ids are, the ends of their domain included
 		cfg.ReadErrKind = int((uint64(myid)*2654435761)>>29) % 12 // ... and whatever error the connection reports from a read
 		cfg.Log = int((uint64(myid)*2654435761)>>9) % 4 // the properties hold for every client configuration, logging options included
 		synctest.Test(t, func(t *testing.T) {
